@@ -97,6 +97,11 @@ GUARDS = {
     # bzr (C10): InterCHKRevisionTree with include_unchanged reports (new path, new path)
     # for an unchanged entry below a renamed directory; the generic code reports its old path
     "chk_unchanged_old_path": True,
+    # bzr (C10): with a path filter and chained renames (b -> e while e -> d) the generic
+    # InterInventoryTree looks up more related paths in the target than in the source and
+    # reports the entry whose source side it did not load as (old path known, not versioned
+    # in the source); InterDirStateTree reports the rename
+    "generic_filter_half_record": True,
     # git: a commit whose changes name one path twice - as the source of a guessed copy /
     # rename and as a path that stays (modified file + new file with its old content), or a
     # file <-> symlink kind change (reported as delete + add) - records the right tree but
